@@ -59,6 +59,7 @@ class OpGen:
         self.mixins = mixins or []  # available (module, class) pairs for @mixin
         self.vars: List[Tuple[str, str, Optional[str]]] = []  # (name, type, default) of the op being built
         self.in_fragment = False
+        self.deep = False
         self.used_aliases: set = set()
         self.used_vars: set = set()
         self.current_kind = "query"
@@ -198,8 +199,8 @@ class OpGen:
                 self.feats.add("arg.literal")
         return "(" + ", ".join(parts) + ")" if parts else ""
 
-    def directive(self) -> str:
-        if not self.use_directives or self.rng.random() > 0.12:
+    def directive(self, force: bool = False) -> str:
+        if not self.use_directives or (not force and self.rng.random() > 0.12):
             return ""
         d = self.rng.choice(["skip", "include"])
         if self.in_fragment or self.rng.random() < 0.4:
@@ -267,6 +268,11 @@ class OpGen:
                 if self.rng.random() < 0.25:
                     sels.append("%s: __typename" % self.alias())
                     self.feats.add("typename.aliased")
+                elif self.use_directives and self.rng.random() < 0.3:
+                    # an explicit, conditional __typename: the generator adds its own unconditional one, the authored one must stay as written
+                    d = self.directive(force=True)
+                    sels.append("__typename" + d)
+                    self.feats.add("typename.conditional")
                 else:
                     sels.append("__typename")
                     self.feats.add("typename.explicit")
@@ -315,7 +321,7 @@ class OpGen:
                 sels.append("__typename")
         if self.use_fragments:
             app = self.applicable_fragments(t)
-            many = "frag.many" in self.dirty or "shape.iface_hierarchy" in self.dirty
+            many = "frag.many" in self.dirty or "shape.iface_hierarchy" in self.dirty or self.deep
             if app and rng.random() < (0.85 if many else 0.5):
                 for name in rng.sample(app, rng.randrange(1, min(4 if many else 2, len(app)) + 1)):
                     sels.append("...%s%s" % (name, self.fragment_directive()))
@@ -349,6 +355,11 @@ class OpGen:
             isinstance(o, GraphQLInterfaceType) and t in o.interfaces for o in self.schema.type_map.values())]
         if "shape.iface_hierarchy" in self.dirty:
             count = max(count, 3)
+        deep = self.deep = self.rng.random() < 0.2
+        if deep:
+            # long spread chains through nested fields: fragment -> field { ...fragment } -> field { ...fragment } ...
+            count = max(count, self.rng.randrange(4, 8))
+            self.feats.add("frag.deep_graph")
         for _ in range(count):
             t = self.rng.choice(supers) if (supers and "shape.iface_hierarchy" in self.dirty and self.rng.random() < 0.6) else self.rng.choice(comps)
             name = "Frag%s%d" % (self.rng.choice(["Alpha", "beta", "Gamma_x", "URL"]), self.uid())
@@ -356,7 +367,7 @@ class OpGen:
             saved_vars = self.vars
             self.vars = []
             try:
-                text = self.selection_set(t, self.rng.randrange(0, 2))
+                text = self.selection_set(t, self.rng.randrange(1, 3) if deep else self.rng.randrange(0, 2))
             finally:
                 self.in_fragment = False
                 self.vars = saved_vars
